@@ -49,7 +49,10 @@ def nucleationBarrier(volumeDrivingForce, precipitate : PrecipitateParameters, a
     else:
         RcritProposal = precipitate.nucleation.Rcrit(volumeDrivingForce[indices])
         Rcrit[indices] = np.amax([RcritProposal, Rmin[indices]], axis=0)
-        Gcrit[indices] = precipitate.nucleation.Gcrit(volumeDrivingForce[indices], Rcrit[indices])
+        # As in the bulk branch, the barrier is the one of a nucleus whose critical radius is Rcrit, i.e. the driving force
+        # that belongs to the (possibly clamped) Rcrit is used. Evaluating the formation energy of a nucleus of radius Rmin
+        # at the actual driving force instead gives a negative "barrier" once Rmin > 1.5 * RcritProposal
+        Gcrit[indices] = precipitate.nucleation.Gcrit(volumeDrivingForce[indices] * RcritProposal / Rcrit[indices], Rcrit[indices])
 
     return np.squeeze(Rcrit), np.squeeze(Gcrit)
 
